@@ -156,6 +156,8 @@ func c20(r *core.Report) {
 	c20VisitedMonotone(r)
 	c20TypedNil(r)
 	c20DrillNil(r)
+	c20DefaultGate(r)
+	c20DecodeOnce(r)
 	resetScope(r, "C20.resetscope")
 	crashPanic(r, csAll, map[string]panicExcuse{
 		"openapi3.readableType": {
@@ -1235,7 +1237,39 @@ func c20VisitedMonotone(r *core.Report) {
 	r.RunRule("C20.visitedmonotone", "visited sets only grow during validation: in the Validate methods and validate* helpers of package openapi3 no entry is deleted (also not by a deferred delete) from a map keyed by pointers to model objects — a callback, schema or path item that was validated stays known, or a document in which objects share sub-objects (41 callbacks each referring twice to the next) takes 2^n visits to validate", 1, func() {
 		n := 0
 		sets := 0
-		for _, d := range validateFamily(p) {
+		// the family and the helpers of the package it calls (collect*, ...), transitively
+		fam := validateFamily(p)
+		inFam := map[*ast.FuncDecl]bool{}
+		for _, d := range fam {
+			inFam[d] = true
+		}
+		for i := 0; i < len(fam); i++ {
+			if fam[i].Body == nil {
+				continue
+			}
+			ast.Inspect(fam[i].Body, func(nd ast.Node) bool {
+				if c, ok := nd.(*ast.CallExpr); ok {
+					if f := core.CalleeOf(info, c); f != nil && f.Pkg() != nil && f.Pkg().Path() == core.ModPath+"/openapi3" {
+						var cd *ast.FuncDecl
+						func() {
+							defer func() { _ = recover() }() // interface methods have no declaration
+							if sig, ok := f.Type().(*types.Signature); ok && sig.Recv() != nil {
+								if _, isIface := sig.Recv().Type().Underlying().(*types.Interface); isIface {
+									return
+								}
+							}
+							cd = p.Decl(f)
+						}()
+						if cd != nil && !inFam[cd] {
+							inFam[cd] = true
+							fam = append(fam, cd)
+						}
+					}
+				}
+				return true
+			})
+		}
+		for _, d := range fam {
 			if d.Body == nil {
 				continue
 			}
